@@ -24,6 +24,10 @@ func runC09(c *Ctx) {
 			return
 		}
 		switch r.Check {
+		case "vexpr":
+			if r.XCase != nil {
+				h.vexprCheck(r.XCase)
+			}
 		case "vcomp":
 			h.vcompCheck(r.Query, r.Input, "")
 		case "lake":
@@ -77,6 +81,12 @@ func runC09(c *Ctx) {
 	}
 	if c.Want("vcomp") {
 		h.vcompRandom()
+	}
+	if c.Want("vexpr") {
+		n := c.N(150, 3000)
+		for i := 0; i < n; i++ {
+			h.vexprCheck(h.genXCase())
+		}
 	}
 	c.Res.Stats["worker:restarts"] = h.w.Restarts
 }
@@ -340,6 +350,21 @@ func (h *harness) modelLakeOutcomes(oc *ocase, agg string, legs int) map[string]
 	return out
 }
 
+// lakeTimedOut: the worker call hit its limit, or a query inside it hit its context deadline.
+func lakeTimedOut(crashed bool, msg string, resp *wResp) bool {
+	if crashed {
+		return strings.HasPrefix(msg, "timeout")
+	}
+	for _, rs := range [][]qRes{resp.Before, resp.After} {
+		for _, r := range rs {
+			if strings.Contains(r.Err, "context deadline exceeded") {
+				return true
+			}
+		}
+	}
+	return false
+}
+
 func (h *harness) lakeCheck(oc *ocase) {
 	c := h.c
 	c.Eval("lake" + oc.key())
@@ -354,6 +379,24 @@ func (h *harness) lakeCheck(oc *ocase) {
 	}
 	var resp wResp
 	crashed, msg := h.w.Call(req, 90*time.Second, &resp)
+	if !crashed {
+		for _, r := range resp.After {
+			if strings.Contains(r.Err, "[vcache-fetch-deadlock]") {
+				// the goroutine dump taken at the deadline shows the lock-order deadlock of
+				// vcache.Cache (model: Zed.VecCacheLock, theorem not_vcache_fetch_deadlock_free)
+				c.Stat("lake:vcache-fetch-deadlock")
+				c.Fail("oracle", "C09:lake:vcache-fetch-deadlock", "lake query with vector copies never finishes ("+trunc(r.Err, 120)+"): one goroutine holds c.mu inside vcache.Cache.lock waiting for the object mutex, its owner waits for c.mu inside Cache.Fetch; objects"+trunc(oc.modelObjects(), 300), oc.replay("lake"))
+				return
+			}
+		}
+	}
+	if lakeTimedOut(crashed, msg, &resp) {
+		// a starved machine, not the code under test, is the usual cause: the case is run once
+		// more with a longer limit, and only a second timeout is reported
+		c.Stat("lake:timeout-retried")
+		resp = wResp{}
+		crashed, msg = h.w.Call(req, 240*time.Second, &resp)
+	}
 	aggs := []string{"countby", "sum"}
 	if crashed {
 		_, o := h.failsAgg(oc, "countby")
@@ -492,7 +535,11 @@ type vknown struct{ q, in, key string }
 var knownVcomp = []vknown{
 	{"yield a+1", `{a:1} {a:null(int64)} {a:7}`, "C09:vexpr:arith-null-operand"},
 	{"yield a==1", `{a:1} {a:null(int64)} {a:7}`, "C09:vexpr:compare-null-operand"},
-	{"where a>1 | yield b", `{a:1,b:2} {a:3,b:-4} {a:5,b:6}`, "C09:vop:yield-after-filter"},
+	{"where a>1 | yield b", `{a:1,b:2} {a:3,b:-4} {a:5,b:6}`, "C09:vop:field-access-on-view"},
+	{"yield a/b", `{a:1,b:0} {a:2,b:1}`, "C09:vexpr:divide-by-zero-panic"},
+	{"yield !p", `{p:true} {p:null(bool)}`, "C09:vexpr:logic-null-operand"},
+	{"yield p==p", `{p:true} {p:false}`, "C09:vexpr:compare-bool"},
+	{"yield a==s", `{a:1,s:"x"} {a:2,s:"y"}`, "C09:vexpr:ill-typed"},
 	{"yield !(a==b)", `{a:0,b:0}`, "C09:vexpr:logic-const-operand"},
 }
 
